@@ -4,19 +4,28 @@
 
    Stacks:  F fragments, T typeFragments, R frames, S fields/labels (struct fields under construction),
             C the static counter `types` of parser.y, P = |typeFragments| - types (the slot `type_array_of_type`
-            rewrites is at absolute index P-1). -/
+            rewrites is at absolute index P-1), Q the `properties` list of PropertyBuilder,
+            E M U G L the pointers currentEdge / currentTemplate / currentFun / currentGantt / currentInstanceLine. -/
 namespace UtapModel.C01
 
 inductive Stack where
-  | F | T | R | S | P | C | Q
+  | F | T | R | S | P | C | Q | E | M | U | G | L
   deriving DecidableEq, Repr
 
-def Stack.all : List Stack := [.F, .T, .R, .S, .P, .C, .Q]
+def Stack.all : List Stack := [.F, .T, .R, .S, .P, .C, .Q, .E, .M, .U, .G, .L]
 def Stack.idx : Stack → Nat
   | .F => 0 | .T => 1 | .R => 2 | .S => 3 | .P => 4 | .C => 5 | .Q => 6
+  | .E => 7 | .M => 8 | .U => 9 | .G => 10 | .L => 11
 def Stack.name : Stack → String
   | .F => "fragments" | .T => "typeFragments" | .R => "frames" | .S => "fields" | .P => "typeBase" | .C => "types"
-  | .Q => "properties"
+  | .Q => "properties" | .E => "currentEdge" | .M => "currentTemplate" | .U => "currentFun" | .G => "currentGantt"
+  | .L => "currentInstanceLine"
+
+/-- the "current object" pointers, modelled as counters: `≥ 1` iff the pointer is non-null (a set is a push, a
+    `= nullptr` is a reset; nothing ever pops one) -/
+def Stack.isPtr : Stack → Bool
+  | .E | .M | .U | .G | .L => true
+  | _ => false
 
 /-! ### linear forms over the attribute values of a production's symbols -/
 
@@ -130,8 +139,11 @@ def SigRow.get (r : SigRow) (s : Stack) : Sig := r.l.getD s.idx ⟨0, 0, some (0
 
 /-! ### the local check -/
 
-/-- abstract height: `some f` = at least `entry + f(vals)`; `none` = only known to be `≥ 0`. -/
-abbrev AState := Option Lin
+/-- abstract height: `rel f` = at least `entry + f(vals)`; `abs a` = at least `a` (all that is known after a reset). -/
+inductive AState where
+  | rel (f : Lin)
+  | abs (a : Nat)
+  deriving Repr
 
 section check
 variable {CB NT : Type}
@@ -148,8 +160,8 @@ def argOk (e : Eff) : CArg → Bool
   | .none => true
 
 def okState (dipA : Nat) (loA : Option (Int × Int)) : AState → Bool
-  | some f => (f.add (Lin.const dipA)).nonneg
-  | none => loA.isNone
+  | .rel f => (f.add (Lin.const dipA)).nonneg
+  | .abs _ => loA.isNone
 
 def stepCall (needA : Nat) (st : AState) (c : Call CB) : Option AState :=
   let e := eff c.cb
@@ -159,14 +171,19 @@ def stepCall (needA : Nat) (st : AState) (c : Call CB) : Option AState :=
   let dn := (Lin.const e.d0).add (n.scale e.dN)
   let dt := (Lin.const e.t0).add (n.scale e.tN)
   match st with
-  | none => if need.isZero then some none else none
-  | some f =>
+  | .abs a =>
+    -- only count-independent callbacks are followed after a reset
+    if !(decide (e.needN = 0) && decide (e.dN = 0) && decide (e.tN = 0) && decide (e.need0 ≤ a)) then none
+    else if e.reset then some (.abs 0)
+    else if e.bump then some (.abs a)
+    else some (.abs ((a : Int) + (if e.canThrow then min e.d0 e.t0 else e.d0)).toNat)
+  | .rel f =>
     if !((f.add (Lin.const needA)).sub need).nonneg then none
-    else if e.reset then some none
-    else if e.bump then some (some f)
-    else if !e.canThrow then some (some (f.add dn))
-    else if (dn.sub dt).nonneg then some (some (f.add dt))
-    else if (dt.sub dn).nonneg then some (some (f.add dn))
+    else if e.reset then some (.abs 0)
+    else if e.bump then some (.rel f)
+    else if !e.canThrow then some (.rel (f.add dn))
+    else if (dn.sub dt).nonneg then some (.rel (f.add dt))
+    else if (dt.sub dn).nonneg then some (.rel (f.add dn))
     else none
 
 def stepCalls (needA : Nat) : List (Call CB) → AState → Option AState
@@ -180,23 +197,31 @@ def stepItem (needA dipA : Nat) (pos : Nat) (st : AState) : Item CB NT → Optio
   | .nt B =>
     let s := sig B
     match st with
-    | none => if s.need = 0 then some none else none
-    | some f =>
+    | .abs a =>
+      if !decide (s.need ≤ a) then none
+      else match s.lo with
+        | none => some (.abs 0)
+        | some (c0, c1) => if 0 ≤ c1 then some (.abs ((a : Int) + c0).toNat) else some (.abs 0)
+    | .rel f =>
       if !(((f.add (Lin.const needA)).sub (Lin.const s.need)).nonneg &&
            ((f.add (Lin.const dipA)).sub (Lin.const s.dip)).nonneg) then none
       else match s.lo with
-        | none => some none
-        | some (c0, c1) => some (some ((f.add (Lin.const c0)).add (Lin.unit pos c1)))
+        | none => some (.abs 0)
+        | some (c0, c1) => some (.rel ((f.add (Lin.const c0)).add (Lin.unit pos c1)))
   | .pnt B =>
     let s := sig B
     match st with
-    | none => if s.need = 0 then some none else none
-    | some f =>
+    | .abs a =>
+      if !decide (s.need ≤ a) then none
+      else match s.lo with
+        | none => some (.abs 0)
+        | some _ => some (.abs (a - s.dip))
+    | .rel f =>
       if !(((f.add (Lin.const needA)).sub (Lin.const s.need)).nonneg &&
            ((f.add (Lin.const dipA)).sub (Lin.const s.dip)).nonneg) then none
       else match s.lo with
-        | none => some none
-        | some _ => some (some (f.sub (Lin.const s.dip)))
+        | none => some (.abs 0)
+        | some _ => some (.rel (f.sub (Lin.const s.dip)))
 
 def checkItems (needA dipA : Nat) (loA : Option (Int × Int)) : Nat → List (Item CB NT) → AState → Option AState
   | _, [], st => if okState dipA loA st then some st else none
@@ -204,8 +229,8 @@ def checkItems (needA dipA : Nat) (loA : Option (Int × Int)) : Nat → List (It
     if okState dipA loA st then (stepItem sig eff needA dipA pos st it).bind (checkItems needA dipA loA (pos + 1) rest) else none
 
 def finalOk (loA : Option (Int × Int)) (attr : Lin) : AState → Bool
-  | none => loA.isNone
-  | some f => match loA with
+  | .abs _ => loA.isNone
+  | .rel f => match loA with
     | none => true
     | some (c0, c1) => ((f.sub (Lin.const c0)).sub (attr.scale c1)).nonneg
 
@@ -213,7 +238,7 @@ def finalOk (loA : Option (Int × Int)) (attr : Lin) : AState → Bool
 def lbProd (p : Prod CB NT) : Bool :=
   let s := sig p.lhs
   p.attr.nonneg && decide (s.dip ≤ s.need) &&
-  match checkItems sig eff s.need s.dip s.lo 0 p.items (some Lin.zero) with
+  match checkItems sig eff s.need s.dip s.lo 0 p.items (.rel Lin.zero) with
   | none => false
   | some st => finalOk s.lo p.attr st
 
@@ -230,10 +255,10 @@ structure CallInst (CB : Type) where
 
 def stepH {CB : Type} (eff : CB → Eff) (h : Int) (ci : CallInst CB) : Option Int :=
   let e := eff ci.cb
-  if e.reset then some 0
-  else if e.bump then some (h + ci.aux)
-  else if ((e.need0 + e.needN * ci.n : Nat) : Int) ≤ h then
-    some (if e.canThrow && ci.thrown then h + (e.t0 + e.tN * ci.n) else h + (e.d0 + e.dN * ci.n))
+  if ((e.need0 + e.needN * ci.n : Nat) : Int) ≤ h then
+    some (if e.reset then 0
+          else if e.bump then h + ci.aux
+          else if e.canThrow && ci.thrown then h + (e.t0 + e.tN * ci.n) else h + (e.d0 + e.dN * ci.n))
   else none
 
 /-- run a trace from height `h`; `none` = some callback needed more entries than were there -/
